@@ -308,9 +308,9 @@ def body(chk: core.Check):
     NU = 6 if quick else 8
     NR = 6 if quick else 8
     chk.bound("formatter_family_U", f"all strings of length <= {NU} over the alphabet {''.join(chr(c) for c in ALPHA_U)!r}")
-    chk.bound("formatter_family_S", "p . W . I . q: p, q arbitrary (<= {1 if quick else 2} chars, family-U alphabet; q optionally followed by "
-              f"'def f' / 'class C'), W whitespace run over space/tab/newline of length <= {4 if quick else 6}, I = "
-              f"{'0/3/4/8' if quick else '0..12'} spaces")
+    chk.bound("formatter_family_S", "p . W . I . q: p, q arbitrary (<= 1 char, family-U alphabet; q optionally followed by "
+              f"'def f' / 'class C'), W whitespace run over space/tab/newline of length <= {4 if quick else 5}, I = "
+              f"{'0/3/4/8' if quick else '0/1/2/3/4/5/8/12'} spaces")
     chk.bound("rst_text", f"all texts of length <= {NR} over the alphabet {''.join(chr(c) for c in RST_ALPHA)!r}; "
               "width/indent/nl in {(72,0,None),(72,8,None),(72,4,True),(40,4,False)}")
     chk.assumptions += [
@@ -339,9 +339,9 @@ def body(chk: core.Check):
         else:
             for pre in itertools.product(ALPHA_U, repeat=2):
                 tasks.append(dict(kind="U", L=L, prefix=pre))
-    inds = (0, 3, 4, 8) if quick else tuple(range(0, 13))
-    wmax = 4 if quick else 6
-    pq = 2 if quick else 3
+    inds = (0, 3, 4, 8) if quick else (0, 1, 2, 3, 4, 5, 8, 12)
+    wmax = 4 if quick else 5
+    pq = 2          # p, q <= 1 symbolic character (a second one multiplies the path count by ~5 per side)
     for lp, lw, ind, lq in itertools.product(range(0, pq), range(2, wmax + 1), inds, range(0, pq)):
         for qfix in ("", "def f", "class C"):
             if (qfix and lq) or not chk.only("formatter"):
@@ -396,7 +396,7 @@ def body(chk: core.Check):
     if chk.only("wrap"):
         from checks import _wrapflow as wf
         _w, wsrc2 = wf.load_wrap()
-        NW = 6 if quick else 8
+        NW = 6 if quick else 7
         # (width, indent, offset); (8, 5, 5) and (12, 8, 8): indent > width/4, where "short line" (< 0.75 width) and
         # "fits after indenting" (<= width - indent) differ
         settings = [(72, 0, 0), (8, 0, 0), (6, 2, 3), (4, 0, 1), (8, 5, 5)] if quick else \
